@@ -4,6 +4,8 @@ import Model.Common.ECProto
 import Model.C07.Bip32
 import Model.C07.Instance
 import Model.C07.DerPath
+import Model.C07.Bip85
+import Model.C07.Shake256
 import Generated.Bip32
 open Btc Btc.Bip32
 
@@ -13,6 +15,7 @@ Line protocol of property C07 (see harness/c07.py).  `<xkey>` is six tokens:
 `<path>` is `_` or comma-separated decimal indexes; `<mac>` is `_` (HMAC-SHA512) or
 `<i>:<hex>`: the MAC answers `<hex>` for any message ending in the 4-byte big-endian index `i`
 (used to reach the invalid-child branches, which no real HMAC output reaches).
+`bip85.app <forced> <xkey> <app> <args…>`: `<forced>` is `none` or the 64 bytes BIP85's own HMAC is made to answer.
 -/
 
 def macOf (tok : String) : Option (Bytes → Bytes → Bytes) :=
@@ -93,6 +96,25 @@ def bip32Op : List String → Option String
           | .ok ts => "ok " ++ (if ts.isEmpty then "_" else ",".intercalate (ts.map toHex)) | .error e => "err " ++ e.name)
   | "bip85.entropy" :: v :: d :: fp :: i :: cc :: k :: [path] => do
     pure (rB (bip85Entropy (envOf hmacSha512) (← xkeyOf [v, d, fp, i, cc, k]) (← pathOf path)))
+  | ["shake256", m, n] => do pure ("ok " ++ toHex (Keccak.shake256 (← fromHex? m) (← n.toNat?)))
+  | "bip85.app" :: forced :: v :: d :: fp :: i :: cc :: k :: app :: args => do
+    let E := envOf hmacSha512
+    let f ← optBytes forced
+    let x ← xkeyOf [v, d, fp, i, cc, k]
+    let a ← args.mapM (fun t => if t == "none" then some none else t.toNat?.map some)
+    let rA {β} (r : Except Bip85.AErr β) (sh : β → String) : String :=
+      match r with | .ok b => "ok " ++ sh b | .error e => "err " ++ e.name
+    match app, a with
+    | "bip39", [some w, some l, some ix] => pure (rA (Bip85.bip39Entropy E f x w l ix) toHex)
+    | "hex", [some n, some ix] => pure (rA (Bip85.hexApp E f x n ix) toHex)
+    | "wif", [some ix] => pure (rA (Bip85.wifPayload E f x ix) toHex)
+    | "xprv", [some ix] => pure (rA (Bip85.xprvApp E f x ix) renderX)
+    | "pwd64", [some n, some ix] => pure (rA (Bip85.pwd64 E f x n ix) String.ofList)
+    | "pwd85", [some n, some ix] => pure (rA (Bip85.pwd85 E f x n ix) String.ofList)
+    | "rolls", [some r, some sd, some ix] =>
+      pure (rA (Bip85.rollsApp E Keccak.shake256 f x r sd ix) fun h => ",".intercalate (h.map toString))
+    | "rsa", [some b, some ix, sub, some n] => pure (rA (Bip85.rsaStream E Keccak.shake256 f x b ix sub n) toHex)
+    | _, _ => none
   | ["ver.pub", v] => do
     pure (match Gen.Bip32.pubVersion (← fromHex? v) with | some p => "ok " ++ toHex p | none => "err bad-version")
   | ["path.parse", s] => do pure (rP (DerPath.indexesFromStr (← strOfHex s)))
